@@ -72,7 +72,7 @@ def run_parallel(path_rows, name, nproc=4, extra=None):
     common.build_harness("release", BIN)
 
     def one(fp):
-        return common.vh(["run", "--in", fp] + (extra or []), binname=BIN, timeout=3000)
+        return common.vh(["run", "--in", fp] + (extra or []), binname=BIN, timeout=3000, env={"RAYON_NUM_THREADS": "3"})
 
     with ThreadPoolExecutor(max_workers=nproc) as ex:
         outs = list(ex.map(one, files))
@@ -96,8 +96,12 @@ def make_scenarios(progs, cfgs, classes, rnd, tag, std_share=0.34):
     std = {"zk": False, "strat": "const", "arities": [4, 5], "rate": 3, "cap": 4, "nch": 2, "width": "std", "q": 28,
            "pow": 16, "keccak": False}
     rows = []
+    nozk = [c for c in cfgs if not c["zk"]]
+    zk = [c for c in cfgs if c["zk"]]
     for i, p in enumerate(progs):
-        cfg = std if rnd.random() < std_share else cfgs[rnd.randrange(len(cfgs))]
+        u = rnd.random()
+        # zero-knowledge circuits carry thousands of blinding rows (seconds each): one in ten
+        cfg = std if u < std_share else (zk[rnd.randrange(len(zk))] if u > 0.9 else nozk[rnd.randrange(len(nozk))])
         rows.append({"id": "%s%d" % (tag, i), "prog": p["prog"], "cfg": cfg, "inputs": classes[rnd.randrange(len(classes))]})
     return rows
 
@@ -175,6 +179,10 @@ def run(chk, tier):
         raise ToolError("harness interpreter disagrees with spec/Programs.tla: %s" % json.dumps(out["mismatches"][:2]))
     chk.sample({"program": allp[0]["prog"], "f17_inputs": allp[0]["inputs"][:2], "f17_expected": allp[0]["expect"][:2]})
     # ---- B2: real circuits
+    if not thorough:
+        rnd.shuffle(p1)
+        p1 = sorted(p1[:500], key=lambda p: json.dumps(p["prog"], sort_keys=True))
+        psim = psim[:150]
     rows = make_scenarios(p1, cfgs, classes, rnd, "a")
     rows += make_scenarios(psim, cfgs, classes, rnd, "s")
     rows += make_scenarios(p2, cfgs, classes, rnd, "b")
